@@ -51,6 +51,11 @@ type FidCase struct {
 	// the error class FailKind; a read request that met a fault may be refused, but what it serves must be right
 	FailGets []int
 	FailKind int
+	// FailAdds (external storage): these chain-storage writes, counted from the first submission, fail; the
+	// refused submission is sent again. ColdReads: the reads go through a second front end of the same log that
+	// was started after all submissions (same backend, same chain storage, nothing cached).
+	FailAdds  []int
+	ColdReads bool
 	// Verbosity is the process-wide klog -v level
 	Verbosity int
 }
@@ -59,6 +64,8 @@ type FidItem struct {
 	Spec   *world.ChainSpec // nil => opaque leaf
 	Opaque []byte
 	Extra  []byte
+	// TrailSpec != nil (opaque leaf): the stored leaf is the well-formed leaf of that chain followed by Opaque
+	TrailSpec *world.ChainSpec
 }
 
 func genFid(t *rapid.T) FidCase {
@@ -66,7 +73,13 @@ func genFid(t *rapid.T) FidCase {
 	n := rapid.IntRange(1, 7).Draw(t, "n")
 	for i := 0; i < n; i++ {
 		if rapid.IntRange(0, 4).Draw(t, "opaque") == 0 {
-			c.Items = append(c.Items, FidItem{Opaque: rapid.SliceOfN(rapid.Byte(), 1, 40).Draw(t, "ov"), Extra: rapid.SliceOfN(rapid.Byte(), 0, 20).Draw(t, "ox")})
+			it := FidItem{Opaque: rapid.SliceOfN(rapid.Byte(), 1, 150).Draw(t, "ov"), Extra: rapid.SliceOfN(rapid.Byte(), 0, 20).Draw(t, "ox")}
+			if rapid.IntRange(0, 2).Draw(t, "trailing") == 0 {
+				// a well-formed leaf followed by octets that do not belong to it (stored by something else than this front end)
+				sp := world.GenSpec(t, fmt.Sprintf("t%d", i))
+				it.TrailSpec, it.Opaque = &sp, it.Opaque[:1+len(it.Opaque)%3]
+			}
+			c.Items = append(c.Items, it)
 		} else {
 			s := world.GenSpecX(t, fmt.Sprintf("c%d", i))
 			c.Items = append(c.Items, FidItem{Spec: &s})
@@ -101,6 +114,10 @@ func genFid(t *rapid.T) FidCase {
 			c.FailGets = append(c.FailGets, rapid.IntRange(0, 12).Draw(t, "failget"))
 		}
 		c.FailKind = rapid.IntRange(0, 4).Draw(t, "failkind")
+		for i, nf := 0, rapid.IntRange(0, 2).Draw(t, "nfailadd"); i < nf; i++ {
+			c.FailAdds = append(c.FailAdds, rapid.IntRange(0, 8).Draw(t, "failadd"))
+		}
+		c.ColdReads = rapid.Bool().Draw(t, "cold")
 	}
 	if rapid.IntRange(0, 24).Draw(t, "huge") == 0 {
 		// big, big, big, small, big, small: the whole tree in one range is well over 8 MiB
@@ -179,6 +196,18 @@ func checkFid(t *testing.T, c FidCase) (v harness.Verdict) {
 		v.Class("twin-log-with-own-chain-storage")
 	}
 	twinWant := map[string][]byte{}
+	if store != nil && len(c.FailAdds) > 0 {
+		failAdd := map[int]bool{}
+		for _, k := range c.FailAdds {
+			failAdd[k] = true
+		}
+		store.FailAdd = func(n int) error {
+			if failAdd[n] {
+				return errors.New("injected storage failure (Add)")
+			}
+			return nil
+		}
+	}
 	type stored struct {
 		built *world.Built
 		ts    uint64
@@ -199,6 +228,16 @@ func checkFid(t *testing.T, c FidCase) (v harness.Verdict) {
 				v.Class("preloaded-direct-layout")
 				continue
 			}
+			if it.TrailSpec != nil {
+				tb := world.Build(*it.TrailSpec)
+				tlv, err := rfc6962.EncodeLeaf(rfc6962.Leaf{Timestamp: uint64(1400000000000 + i), Entry: tb.Entry()})
+				if err != nil {
+					t.Fatalf("reference leaf: %v", err)
+				}
+				be.AppendRaw(append(tlv, it.Opaque...), tb.ExtraData())
+				v.Class("stored-leaf-with-trailing-octets")
+				continue
+			}
 			be.AppendRaw(it.Opaque, it.Extra)
 			continue
 		}
@@ -209,7 +248,26 @@ func checkFid(t *testing.T, c FidCase) (v harness.Verdict) {
 			path = "/ct/v1/add-pre-chain"
 		}
 		clock.Add(time.Duration(i+1) * time.Millisecond)
+		a0 := 0
+		if store != nil {
+			a0, _ = store.Calls()
+		}
 		rsp := inst.Post(path, addChainBody(b.Submit))
+		for try := 0; try <= len(c.FailAdds) && rsp.Status != 200 && store != nil && store.FailAdd != nil; try++ {
+			a1, _ := store.Calls()
+			fired := false
+			for n := a0; n < a1; n++ {
+				fired = fired || store.FailAdd(n) != nil
+			}
+			if !fired {
+				break
+			}
+			// the chain could not be written: the submitter tries again
+			v.Class("storage-write-fault-then-retry")
+			time.Sleep(300 * time.Microsecond)
+			a0 = a1
+			rsp = inst.Post(path, addChainBody(b.Submit))
+		}
 		if rsp.Status != 200 {
 			v.Failf("valid-chain-refused", "item %d: %s answered %d: %s", i, path, rsp.Status, rsp.Body)
 			return v
@@ -265,6 +323,21 @@ func checkFid(t *testing.T, c FidCase) (v harness.Verdict) {
 	lc, err := client.New("http://log.example/log", &http.Client{Transport: ctfex.RoundTripper{Inst: inst}}, jsonclient.Options{})
 	if err != nil {
 		t.Fatalf("client: %v", err)
+	}
+	if store != nil && c.ColdReads {
+		time.Sleep(300 * time.Microsecond)
+		o3 := o
+		o3.Prefix = "cold"
+		cold, err := ctfex.New(o3)
+		if err != nil {
+			t.Fatalf("second front end: %v", err)
+		}
+		inst = cold
+		lc, err = client.New("http://log.example/cold", &http.Client{Transport: ctfex.RoundTripper{Inst: inst}}, jsonclient.Options{})
+		if err != nil {
+			t.Fatalf("client: %v", err)
+		}
+		v.Class("reads-through-a-second-front-end")
 	}
 	ctx := context.Background()
 	getCalls := func() int {
